@@ -68,6 +68,44 @@ def r1_no_drop(ck, F):
     ck.ob("C12-R2", "no-unwrap-on-component-error", not bad, f"no unwrap()/expect() on a Result whose error can be a component failure" + (f": {bad}" if bad else " (the existing unwraps are on TryFromSliceError / TryFromIntError / LayoutError)"), config=F.config)
 
 
+def _receiver_param(f, t):
+    """the U of the Error<U> that convert_merge_error is applied to at this use, from the instantiated signature
+    of the function reference (works whether U is a generic parameter of the method or fixed by its impl block)"""
+    import re
+    ty = None
+    func = t.get("func", {})
+    if func.get("fn") is f:
+        ty = func.get("ty")
+    else:
+        for a in t.get("args", []):
+            if a.get("k") == "const" and a.get("fn") is f:
+                ty = a.get("ty")
+    if ty and "fn(" in ty:
+        inputs = ty.split("fn(", 1)[1]
+        m = re.match(r"\s*(error::Error(<.*)?)", inputs)
+        if m:
+            first = inputs
+            # first parameter: up to the matching top-level `)` or `,`
+            depth = 0
+            out = ""
+            for ch in first:
+                if ch in "<(":
+                    depth += 1
+                elif ch in ">)":
+                    if depth == 0:
+                        break
+                    depth -= 1
+                elif ch == "," and depth == 0:
+                    break
+                out += ch
+            out = out.strip()
+            if out == "error::Error":
+                return "std::convert::Infallible"
+            if out.startswith("error::Error<") and out.endswith(">"):
+                return out[len("error::Error<"):-1]
+    return f["args"][0] if f.get("args") else "?"
+
+
 def r3_convert(ck, F):
     R = "C12-R3"
     b = F.body(A("convert_merge_error"))
@@ -105,7 +143,7 @@ def r3_convert(ck, F):
                 if a.get("k") == "const" and "fn" in a and a["fn"]["path"] == A("convert_merge_error"):
                     cands.append(a["fn"])
             for f in cands:
-                uses.append((bdy, s, f["args"][0] if f["args"] else "?"))
+                uses.append((bdy, s, _receiver_param(f, t)))
     ck.floor(R, "uses of convert_merge_error", len(uses), 4, F.config)  # 8 counted; call sites may legitimately be shared
     for bdy, s, u in uses:
         ck.ob(R, f"receiver-has-no-merge-error/{bdy.path}", u == "std::convert::Infallible", f"convert_merge_error applied to Error<{u}> (must be Error<Infallible>: a real merge error would hit the panicking arm)", bdy, s)
